@@ -183,7 +183,7 @@ Definition rc_want (size : N) (p : part) : N :=
   if is_nil (p_carry p) then size else N.max (size - lenN (p_carry p)) (p_blen p).
 
 Lemma read_chunk_eq size p s :
-  read_chunk size p s =
+  read_chunk_once size p s =
   if p_at_eof p then Ok ([], p, s) else
   match (match p_length p with
          | Some l => if l =? 0 then read_chunk_from_stream (rc_want size p) (p_set_carry [] p) s
@@ -194,7 +194,7 @@ Lemma read_chunk_eq size p s :
   | Ok x => rc_tail (p_b64 p) (p_carry p) (rc_want size p) x
   end.
 Proof.
-  unfold read_chunk, rc_tail, rc_want. destruct (p_at_eof p); [reflexivity|].
+  unfold read_chunk_once, rc_tail, rc_want. destruct (p_at_eof p); [reflexivity|].
   destruct (match p_length p with Some _ => _ | None => _ end) as [[[fresh p1] s1]|e]; reflexivity.
 Qed.
 
@@ -241,9 +241,9 @@ Proof. unfold measure, prev_len. intros -> ->. reflexivity. Qed.
 Lemma rc_want_pos size p : 0 < size -> 0 < rc_want size p.
 Proof. unfold rc_want. pose proof (blen_ge2 p). destruct (is_nil (p_carry p)); lia. Qed.
 
-Theorem read_chunk_progress size p s d p' s' :
+Theorem read_chunk_once_progress size p s d p' s' :
   0 < size -> wf p -> p_at_eof p = false ->
-  read_chunk size p s = Ok (d, p', s') ->
+  read_chunk_once size p s = Ok (d, p', s') ->
   p_at_eof p' = true \/ (measure p' s' < measure p s /\ wf p').
 Proof.
   intros Hsz W E H. rewrite read_chunk_eq, E in H.
@@ -285,7 +285,7 @@ Proof.
     apply (stream_case x eq_refl); [left; reflexivity|exact H].
 Qed.
 
-Lemma read_chunk_no_fuel size p s : read_chunk size p s <> Err EFuel.
+Lemma read_chunk_once_no_fuel size p s : read_chunk_once size p s <> Err EFuel.
 Proof.
   rewrite read_chunk_eq. destruct (p_at_eof p); [discriminate|].
   assert (FS : forall want p0, read_chunk_from_stream want p0 s <> Err EFuel).
@@ -310,6 +310,62 @@ Proof.
     + unfold read_chunk_from_length. destruct (s_read _ s). apply TL.
   - destruct (read_chunk_from_stream _ _ s) eqn:F; [apply TL|]. intro X; inversion X; subst. exact (FS _ _ F).
 Qed.
+
+
+(* ---- read_chunk with its re-reads (a base64 part whose chunk held only a partial quartet) ---- *)
+Lemma read_chunk_n_eq n size p s :
+  read_chunk_n n size p s =
+  match read_chunk_once size p s with
+  | Err e => Err e
+  | Ok (d, p', s') =>
+    if retry d p' then match n with O => Err EFuel | S n' => read_chunk_n n' size p' s' end
+    else Ok (d, p', s')
+  end.
+Proof. destruct n; reflexivity. Qed.
+
+Lemma retry_not_eof d p : retry d p = true -> p_at_eof p = false.
+Proof. unfold retry. intro H. apply andb_true_iff in H as [_ H]. apply negb_true_iff in H. exact H. Qed.
+
+Lemma read_chunk_n_progress n : forall size p s d p' s',
+  0 < size -> wf p -> p_at_eof p = false ->
+  read_chunk_n n size p s = Ok (d, p', s') ->
+  p_at_eof p' = true \/ (measure p' s' < measure p s /\ wf p').
+Proof.
+  induction n as [|n IH]; intros size p s d p' s' Hsz W E H; rewrite read_chunk_n_eq in H;
+    destruct (read_chunk_once size p s) as [[[d1 p1] s1]|e] eqn:R; try discriminate;
+    destruct (retry d1 p1) eqn:RT; try discriminate.
+  - inversion H; subst. exact (read_chunk_once_progress _ _ _ _ _ _ Hsz W E R).
+  - pose proof (retry_not_eof _ _ RT) as E1.
+    destruct (read_chunk_once_progress _ _ _ _ _ _ Hsz W E R) as [X|[M1 W1]]; [congruence|].
+    destruct (IH _ _ _ _ _ _ Hsz W1 E1 H) as [X|[M2 W2]]; [left; exact X|right; split; [lia|exact W2]].
+  - inversion H; subst. exact (read_chunk_once_progress _ _ _ _ _ _ Hsz W E R).
+Qed.
+
+Lemma read_chunk_n_no_fuel n : forall size p s,
+  0 < size -> wf p -> (N.to_nat (measure p s) < n)%nat -> read_chunk_n n size p s <> Err EFuel.
+Proof.
+  induction n as [|n IH]; intros size p s Hsz W Hn; [lia|]. rewrite read_chunk_n_eq.
+  destruct (read_chunk_once size p s) as [[[d1 p1] s1]|e] eqn:R.
+  - destruct (retry d1 p1) eqn:RT; [|discriminate].
+    pose proof (retry_not_eof _ _ RT) as E1.
+    destruct (p_at_eof p) eqn:E.
+    + rewrite read_chunk_eq, E in R. inversion R; subst. congruence.
+    + destruct (read_chunk_once_progress _ _ _ _ _ _ Hsz W E R) as [X|[M1 W1]]; [congruence|].
+      apply IH; [exact Hsz|exact W1|lia].
+  - intro X; inversion X; subst. exact (read_chunk_once_no_fuel _ _ _ R).
+Qed.
+
+Lemma chunk_budget_enough p s : (N.to_nat (measure p s) < chunk_budget p s)%nat.
+Proof. unfold chunk_budget, measure, prev_len. destruct (p_prev p); lia. Qed.
+
+Theorem read_chunk_progress size p s d p' s' :
+  0 < size -> wf p -> p_at_eof p = false ->
+  read_chunk size p s = Ok (d, p', s') ->
+  p_at_eof p' = true \/ (measure p' s' < measure p s /\ wf p').
+Proof. unfold read_chunk. apply read_chunk_n_progress. Qed.
+
+Lemma read_chunk_no_fuel size p s : 0 < size -> wf p -> read_chunk size p s <> Err EFuel.
+Proof. intros Hsz W. unfold read_chunk. apply read_chunk_n_no_fuel; [exact Hsz|exact W|apply chunk_budget_enough]. Qed.
 
 (* ---- the loops ---- *)
 Lemma chunk_size_pos : 0 < chunk_size.
@@ -338,7 +394,7 @@ Proof.
     destruct (read_chunk_progress _ _ _ _ _ _ chunk_size_pos W E R) as [E'|[M W']].
     + rewrite read_loop_eq, E'. discriminate.
     + apply IH; [exact W'|lia].
-  - intro X; inversion X; subst. exact (read_chunk_no_fuel _ _ _ R).
+  - intro X; inversion X; subst. exact (read_chunk_no_fuel _ _ _ chunk_size_pos W R).
 Qed.
 
 Lemma release_loop_eq fuel p s :
@@ -359,7 +415,7 @@ Proof.
   - destruct (read_chunk_progress _ _ _ _ _ _ chunk_size_pos W E R) as [E'|[M W']].
     + rewrite release_loop_eq, E'. discriminate.
     + apply IH; [exact W'|lia].
-  - intro X; inversion X; subst. exact (read_chunk_no_fuel _ _ _ R).
+  - intro X; inversion X; subst. exact (read_chunk_no_fuel _ _ _ chunk_size_pos W R).
 Qed.
 
 Lemma chunks_loop_eq fuel sizes count bounded acc p s :
@@ -394,7 +450,7 @@ Proof.
   - destruct (read_chunk_progress _ _ _ _ _ _ Hz W E R) as [E'|[M W']].
     + rewrite chunks_loop_eq, E'. discriminate.
     + apply IH; [exact Hs'|exact W'|lia].
-  - intro X; inversion X; subst. exact (read_chunk_no_fuel _ _ _ R).
+  - intro X; inversion X; subst. exact (read_chunk_no_fuel _ _ _ Hz W R).
 Qed.
 
 Lemma new_part_wf b len b64 mx : wf (new_part b len b64 mx).
@@ -407,42 +463,3 @@ Proof.
   apply read_loop_terminates; [apply new_part_wf|]. unfold measure, prev_len, new_part. cbn [p_prev p_content_eof]. lia.
 Qed.
 
-(* ---- readline has no guard: the loop `while not part.at_eof(): await part.readline()` spins at EOF ---- *)
-Definition spin_stream : stream := s_init [] true 100.
-Definition spin_part0 : part := new_part [45; 45; 66] None false 0.
-Definition spin_part : part := p_set_unread [[]] spin_part0.
-
-Lemma spin_step0 : part_readline spin_part0 spin_stream = Ok ([], spin_part, spin_stream).
-Proof. vm_compute. reflexivity. Qed.
-Lemma spin_step : part_readline spin_part spin_stream = Ok ([], spin_part, spin_stream).
-Proof. vm_compute. reflexivity. Qed.
-
-Lemma lines_loop_eq fuel count bounded acc p s :
-  lines_loop fuel count bounded acc p s =
-  if p_at_eof p || (bounded && (count =? 0)) then Ok (acc, p, s) else
-  match fuel with
-  | O => Err EFuel
-  | S f => match part_readline p s with
-           | Err e => Err e
-           | Ok (d, p', s') => lines_loop f (count - 1) bounded (acc ++ d) p' s'
-           end
-  end.
-Proof. destruct fuel; reflexivity. Qed.
-
-Lemma spin_loop fuel : forall acc count, lines_loop fuel count false acc spin_part spin_stream = Err EFuel.
-Proof.
-  induction fuel as [|f IH]; intros acc count; rewrite lines_loop_eq.
-  - reflexivity.
-  - change (p_at_eof spin_part || (false && (count =? 0))) with false. cbv iota.
-    rewrite spin_step. apply IH.
-Qed.
-
-Theorem readline_loop_spins :
-  exists p s, p_at_eof p = false /\ s_at_eof s = true /\
-    (forall fuel, lines_loop fuel 0 false [] p s = Err EFuel).
-Proof.
-  exists spin_part0, spin_stream. split; [reflexivity|]. split; [reflexivity|].
-  intros [|f]; rewrite lines_loop_eq; [reflexivity|].
-  change (p_at_eof spin_part0 || (false && (0 =? 0))) with false. cbv iota.
-  rewrite spin_step0. apply spin_loop.
-Qed.
